@@ -119,6 +119,16 @@ func TestZZReplay(t *testing.T) {
 			if err := rewriteCallSites(repo, append([]string{rf.Package}, rf.RewritePkgs...), tbl, rf.Package, ov); err != nil {
 				return false, "call-site rewrite: " + err.Error()
 			}
+		} else if len(rf.NativeCallsites) > 0 {
+			sub := map[string]string{}
+			for _, k := range rf.NativeCallsites {
+				if v, ok := tbl[k]; ok {
+					sub[k] = v
+				}
+			}
+			if err := rewriteCallSites(repo, append([]string{rf.Package}, rf.RewritePkgs...), sub, rf.Package, ov); err != nil {
+				return false, "call-site rewrite: " + err.Error()
+			}
 		}
 	}
 	// materialise the overlay
